@@ -112,6 +112,16 @@ def python_layer_events():
             for n in (0, 1, 8, 15, 16, 17, 20, 24, 40):
                 for P in (None, DesKey, Aes128Key):
                     for pn in ((1, 16, 20, 33) if P else (0,)):
+                        # what the Python layer makes of the key material before it reaches the socket
+                        ktn = {KeyType.Password: 0, KeyType.Master: 1, KeyType.Localized: 2}[kt]
+                        ue = dict(ev="UserKeys", aalg=alg, kt=ktn, akey=list(keybytes(n, 1)), pcipher=0 if P is None else (1 if P is DesKey else 2),
+                                  pkey=list(keybytes(pn, 2)) if P else [], outa=[], outp=[], exc="", bases=[], isexc=True)
+                        try:
+                            u0 = User("u", auth_key=K(keybytes(n, 1), key_type=kt), priv_key=P(keybytes(pn, 2), key_type=kt) if P else None)
+                            ue["outa"], ue["outp"] = list(u0.get_auth_key()), list(u0.get_priv_key()) if P else []
+                        except BaseException as e:  # noqa
+                            ue["exc"], ue["bases"], ue["isexc"] = exc_info(e)
+                        out.append(ue)
                         exc, bases, isexc = "", [], True
                         acode = pcode = alen = plen = 0
                         try:
@@ -172,6 +182,12 @@ def run(tier):
             sig = dict(ev="Install", akt=e["acode"] // 64, aalg=e["acode"] % 64 if e["acode"] % 64 < 3 else "other", akeylen_ok=e["akeylen"] in (16, 20), empty=e["akeylen"] == 0,
                        pkt=e["pcode"] // 64, palg=e["pcode"] % 64 if e["pcode"] % 64 < 3 else "other", got=e["exc"] or "accepted")
             chk.violation(sig, "%s(auth code %d, %d octets; priv code %d, %d octets): %s" % (e["via"], e["acode"], e["akeylen"], e["pcode"], e["pkeylen"], e["exc"] or "accepted"),
+                          dict(event={k: v_ for k, v_ in e.items()}))
+        elif e["ev"] == "UserKeys":
+            sig = dict(ev="UserKeys", aalg=e["aalg"], kt=e["kt"], pcipher=e["pcipher"], got=e["exc"] or "keys")
+            chk.violation(sig, "User(auth %s key of %d octets, key type %d%s): handed to the socket: auth key %d octets, privacy key %d octets (%s)" %
+                          ({1: "MD5", 2: "SHA-1"}[e["aalg"]], len(e["akey"]), e["kt"], (", privacy key of %d octets" % len(e["pkey"])) if e["pcipher"] else "",
+                           len(e["outa"]), len(e["outp"]), e["exc"] or "key material of the digest's length must pass unchanged"),
                           dict(event={k: v_ for k, v_ in e.items()}))
         else:
             sig = dict(ev=e["ev"], alg=e["alg"], empty=(e.get("pwlen", 1) == 0), got=e["exc"] or "value")
